@@ -100,6 +100,11 @@ def boundary_cases(ctx, n):
         b.name, b.files, b.text, b.gen = "b%d" % i, {}, None, None
         b.stmts = [gen.Import("ipv4"), gen.Import("time"), pk(), pk(), pk()]
         b.meta = [{"kind": "import", "npk": 0}, {"kind": "import", "npk": 0}] + [{"kind": "expr", "npk": 1}] * 3
+        if i % 2:
+            # a clock of realistic dates (beyond 2^53 ns, where 64-bit floating point no longer holds every nanosecond)
+            epoch = r.choice([1700000000, 9007200, 4000000000])
+            b.stmts.insert(2, gen.Do(gen.Call("time::jump_seconds", gen.INT(epoch))))
+            b.meta.insert(2, {"kind": "expr", "npk": 0, "what": "jump", "ns": epoch * 10**9})
         bases.append(b)
     _, res = common.run_programs("c12pre", {b.name: gen.render_program(b.stmts) for b in bases})
     out = []
@@ -115,16 +120,18 @@ def boundary_cases(ctx, n):
         S = 10**9
         LIM = 2**32 * S
         cand = [("nanos", (-t[1]) % S + S * r.choice([0, 1, 7])), ("nanos", (-t[1] - 1) % S), ("nanos", (-t[1] + 1) % S + S),
-                ("nanos", (-t[2]) % S + 3 * S), ("seconds", 4294967295), ("millis", 4294967295999),
-                ("nanos", LIM - 1 - t[2]), ("micros", (LIM - 1 - t[2]) // 1000)]
+                ("nanos", (-t[2]) % S + 3 * S), ("nanos", (-t[1] - 50) % S), ("nanos", (-t[1] - 200) % S)]
+        if t[2] < S:
+            cand += [("seconds", 4294967295), ("millis", 4294967295999), ("nanos", LIM - 1 - t[2]), ("micros", (LIM - 1 - t[2]) // 1000)]
         for j, (unit, mag) in enumerate(cand):
             mult = {"seconds": 10**9, "millis": 10**6, "micros": 10**3, "nanos": 1}[unit]
-            pos = 3 if j != 3 else 4            # before the second (third) packet
+            off = len(b.stmts) - 5              # 1 when the base starts with an epoch jump
+            pos = (3 if j != 3 else 4) + off    # before the second (third) packet
             v = Case()
             v.name, v.files, v.text = "%sv%d" % (b.name, j), {}, None
             v.stmts = b.stmts[:pos] + [gen.Do(gen.Call("time::jump_" + unit, gen.INT(mag)))] + b.stmts[pos:]
             v.meta = b.meta[:pos] + [{"kind": "expr", "npk": 0, "what": "jump", "ns": mag * mult}] + b.meta[pos:]
-            v.gen = {"d": mag * mult, "nbefore": pos - 2, "base": b.name, "directed": True}
+            v.gen = {"d": mag * mult, "nbefore": pos - 2 - off, "base": b.name, "directed": True}
             out.append(v)
     ctx.dist["directed_boundary_variants"] = len(out) - len(bases)
     return out
